@@ -356,6 +356,19 @@ func genC10(g *Rng, tier string, emit func(Op)) {
 								evs[i].Parent = p[:len(p)-k]
 								return evs, data, counter, kp
 							}},
+							mut{"E-shifted-into-parent", func(evs []absEvent) ([]absEvent, []byte, int, *KeyPair) {
+								// move the leading byte(s) of E onto the tail of the parent hash: the hashed
+								// byte string index||parent||E stays the same, the event does not
+								eb := evs[i].E.Bytes()
+								k := 1 + g.intn(2)
+								if len(eb) <= k || eb[k] == 0 {
+									evs[i].E = new(big.Int).Add(evs[i].E, bi(2))
+									return evs, data, counter, kp
+								}
+								evs[i].Parent = append(append([]byte{}, evs[i].Parent...), eb[:k]...)
+								evs[i].E = new(big.Int).SetBytes(eb[k:])
+								return evs, data, counter, kp
+							}},
 							mut{"event-deleted", func(evs []absEvent) ([]absEvent, []byte, int, *KeyPair) {
 								return append(evs[:i], evs[i+1:]...), data, counter, kp
 							}},
